@@ -1,4 +1,5 @@
 import CharonV.Model.DutiesCache
+import CharonV.Model.SseReorg
 import Driver.Common
 
 /-
@@ -26,6 +27,7 @@ structure DState where
   keys   : List (Nat × Nat) := []      -- (kind, epoch) ever touched in this episode
   intern : List Nat := []              -- object ids in order of first appearance (reversed)
   nIntern : Nat := 0
+  sseLast : List (Nat × Nat) := []     -- per slots-per-epoch: last epoch the SSE listener notified (default 0)
 
 def parseList (s : String) : Option (List Nat) :=
   if s == "-" then some []
@@ -110,6 +112,20 @@ def step (d : DState) (line : String) : DState × String :=
     match a.toNat? with
     | some e => let d := { d with st := (mstep d (.reorg e)).1 }; (d, snapshot d)
     | none => (d, "bad-op")
+  | ["sse", a, b, c] =>
+    -- a chain_reorg event (head slot, depth) at the SSE listener for `spe` slots per epoch; its subscriber
+    -- is InvalidateCache (and the scripted node changes its answers for the epochs after the notified one)
+    match a.toNat?, b.toNat?, c.toNat? with
+    | some slot, some depth, some spe =>
+      let last := ((d.sseLast.find? (fun x => x.1 == spe)).map (·.2)).getD 0
+      match CharonV.SseReorg.handle spe last slot depth with
+      | (_, .err) => (d, "sse err")
+      | (_, .dup) => (d, "sse dup")
+      | (l, .notify e) =>
+        let d := { d with st := (mstep d (.reorg e)).1,
+                          sseLast := (spe, l) :: d.sseLast.filter (fun x => x.1 != spe) }
+        (d, s!"sse {e} " ++ snapshot d)
+    | _, _, _ => (d, "bad-op")
   | ["trim", a] =>
     match a.toNat? with
     | some e => let d := { d with st := (mstep d (.trim e)).1 }; (d, snapshot d)
